@@ -8,11 +8,20 @@ def gen(rng, tier):
     return [R.trie_case(rng, rng.randrange(5, 40)) for _ in range(n)]
 
 
+def gen_stack(rng, tier):
+    # a subscriber that never reads: with a large SNDHWM nothing fills up; with a small one the publisher is blocked (known finding)
+    return [["pubstall 1000 %d 100000" % rng.choice([30, 60])], ["pubstall 5 60 100000"]]
+
+
 SPEC = {
-    "components": [{"comp": "routing", "gen": gen, "oracle": R.trie_oracle, "label": "trie",
+    "components": [{"comp": "stack", "gen": gen_stack, "label": "stalled-subscriber", "shrink": False,
+                    "nontrivial": lambda c, i: any(l == "pubstall=ok" or "key=pub-blocked" in l for l in i), "dist": lambda cs: {"cases": len(cs)}},
+                   {"comp": "routing", "gen": gen, "oracle": R.trie_oracle, "label": "trie",
                     "nontrivial": lambda c, i: any(l == "true" for l in i), "dist": lambda cs: {"cases": len(cs)}}],
     "search": lambda rng, tier: [("routing", gen(rng, tier), R.trie_oracle)],
-    "rule": "random histories (5..40 ops) of subscribe/unsubscribe/matches/get_all_topics on the real SubscriptionTrie over nested, "
+    "rule": "stack level: a PUB with a healthy SUB and a raw subscriber that subscribes and then never reads - the publisher must not be "
+            "blocked and the healthy subscriber must get everything in order (blocked with a small SNDHWM: known finding); component "
+            "level: random histories (5..40 ops) of subscribe/unsubscribe/matches/get_all_topics on the real SubscriptionTrie over nested, "
             "binary, empty and repeated topics; oracle = multiset-of-subscriptions reference; non-trivial = some match or removal "
             "returned true",
     "assumptions": ["concurrent match-while-modify is covered at lock granularity only (each trie node access atomic)",
